@@ -156,6 +156,55 @@ def build_snippet(src):
         shutil.rmtree(tmp, ignore_errors=True)
 
 
+PROMOTE = os.path.join(VERIF, "sa", "promote")
+
+
+def build_units(names, config="pthread", repo=REPO, promote=True):
+    """Facts for a few SRC units compiled with the configuration's flags; with promote=True function-scope statics that are provably written before read
+    (sa/promote: every load dominated by a store in the same function) become SSA registers, so the loop engines see the induction variables of f2c code."""
+    flags = config_flags(config, repo)
+    srcs = [os.path.join(repo, "SRC", n) for n in names]
+    for sp in srcs:
+        if not os.path.exists(sp):
+            raise BuildError("unit %s not found" % sp)
+    if promote and not os.path.exists(PROMOTE):
+        raise BuildError("sa/promote not built: run /verif/setup.sh")
+    h = hashlib.sha256((config + " ".join(flags) + str(promote)).encode())
+    for sp in srcs:
+        h.update(open(sp, "rb").read())
+    for tool in (IRDUMP, PROMOTE):
+        if os.path.exists(tool):
+            with open(tool, "rb") as f:
+                h.update(hashlib.sha256(f.read()).digest())
+    os.makedirs(CACHE, exist_ok=True)
+    out = os.path.join(CACHE, "units-%s-%s.json" % (config, h.hexdigest()[:20]))
+    if os.path.exists(out):
+        return out
+    tmp = tempfile.mkdtemp(prefix="slumt-units-")
+    try:
+        bcs = []
+        for sp in srcs:
+            o = os.path.join(tmp, os.path.basename(sp)[:-2] + ".bc")
+            r = subprocess.run(["clang-14", "-O0", "-Xclang", "-disable-O0-optnone", "-g", "-w"] + flags + ["-emit-llvm", "-c", sp, "-o", o], capture_output=True, text=True)
+            if r.returncode != 0:
+                raise BuildError("compile failed: %s: %s" % (sp, r.stderr[:300]))
+            bcs.append(o)
+        linked = os.path.join(tmp, "u.bc"); m2r = os.path.join(tmp, "u.m2r.bc"); pr = os.path.join(tmp, "u.pr.bc")
+        steps = [["llvm-link-14"] + bcs + ["-o", linked], ["opt-14", "-passes=mem2reg", linked, "-o", m2r]]
+        last = m2r
+        if promote:
+            steps.append([PROMOTE, m2r, pr]); last = pr
+        steps.append([IRDUMP, last, out + ".tmp%d" % os.getpid()])
+        for cmd in steps:
+            r = subprocess.run(cmd, capture_output=True, text=True)
+            if r.returncode != 0:
+                raise BuildError("units: %s: %s" % (cmd[0], r.stderr[:300]))
+        os.replace(out + ".tmp%d" % os.getpid(), out)
+        return out
+    finally:
+        shutil.rmtree(tmp, ignore_errors=True)
+
+
 if __name__ == "__main__":
     cfg = sys.argv[1] if len(sys.argv) > 1 else "pthread"
     p, info = build(cfg, use_cache="--no-cache" not in sys.argv)
